@@ -155,20 +155,27 @@ def make_call(name, seed, kind):
         return sp.split, [_arr(g, [n], kind), shapes], {}, []
     if name == "rss":
         sh = _shape(g, int(g.integers(2, 4)))
-        return sp.rss, [_arr(g, sh, kind)], {}, []
+        return sp.rss, [_arr(g, sh, kind)], {} if g.random() < 0.5 else {"axes": (int(g.integers(-len(sh), len(sh))),)}, []
     if name == "resize":
         sh = _shape(g)
         o = [max(1, s + int(g.integers(-2, 3))) for s in sh] if g.random() < 0.8 else list(sh)
-        return sp.resize, [_arr(g, sh, kind), o], {}, []
+        kw = {}
+        if g.random() < 0.3:
+            kw = {"ishift": [int(g.integers(0, max(1, s // 2))) for s in sh], "oshift": [int(g.integers(0, max(1, s // 2))) for s in o]}
+        return sp.resize, [_arr(g, sh, kind), o], kw, []
     if name == "flip":
         sh = _shape(g)
         return sp.flip, [_arr(g, sh, kind)], {} if g.random() < 0.5 else {"axes": [0]}, []
     if name == "circshift":
         sh = _shape(g)
+        if g.random() < 0.4:
+            return sp.circshift, [_arr(g, sh, kind), [int(g.integers(-3, 4))]], {"axes": [int(g.integers(-len(sh), len(sh)))]}, []
         return sp.circshift, [_arr(g, sh, kind), [int(g.integers(-3, 4)) for _ in sh]], {}, []
     if name == "downsample":
         sh = _shape(g)
-        return sp.downsample, [_arr(g, sh, kind), [int(g.integers(1, 4)) for _ in sh]], {}, []
+        f = [int(g.integers(1, 4)) for _ in sh]
+        kw = {} if g.random() < 0.6 else {"shift": [int(g.integers(0, ff)) for ff in f]}
+        return sp.downsample, [_arr(g, sh, kind), f], kw, []
     if name == "upsample":
         sh = _shape(g)
         f = [int(g.integers(1, 4)) for _ in sh]
